@@ -1,4 +1,8 @@
-"""C08: portfolios in which a StructuredAsset carries a window of its own.
+"""C08: generators and oracles of the streams swin (a StructuredAsset with a window of its own, below), hext (every window inside
+the horizon; the horizon extended before / after: second part of the file) and take (proration of take periods for contracts
+with one and two variables per step: third part).
+
+Stream swin: portfolios in which a StructuredAsset carries a window of its own.
 
 The structure hands its [start, end) down to everything it wraps, so every wrapped asset - also one that has no start/end
 parameter of its own, the order book - is active only inside the structure's window (clipped to the horizon).  The generator
@@ -226,3 +230,490 @@ def flatten_by_hand(scn):
             keep.append(a)
     out['assets'] = keep
     return out, facts
+
+
+# ====================================================================================== stream 'hext': the horizon extended
+# "Only what lies inside the horizon and inside an asset's window matters": when EVERY asset has an explicit window [start, end)
+# inside the horizon H, nothing can happen in the part of a longer horizon H' = H extended by k steps before and / or m steps
+# after, so the same portfolio on H and on H' has the same optimum, the same solutions (a solution on H, put asset by asset
+# into the problem on H', is feasible and optimal there, and the other way round), and no dispatch in H' \ H.
+# The generator draws what is anchored somewhere in time: storages optimised in time blocks (`block_size` as multiples of the
+# step from '2h' to '3d', a week, sizes that are no multiple of the step), whose own start is offset from the start of H' by
+# anything, not just multiples of the block; plants / CHP with minimum run and down times and a history; contracts, transports
+# and multi-commodity contracts with take periods anywhere; assets with a coarser frequency (window on whole coarse steps);
+# scaled assets; order books with all orders inside H; markets.
+BLOCKS = ['2h', '3h', '4h', '6h', '8h', '12h', 'd', '36h', '2d', '3d', 'W', '90min', '45min', '5h']
+HEXT_KINDS = ['storage_block'] * 5 + ['storage', 'storage', 'plant', 'plant', 'chp', 'contract', 'contract', 'ext_transport', 'transport', 'multi',
+                                      'simple', 'coarse', 'coarse', 'scaled', 'orderbook']
+# the start side of the extension (k > 0 steps before H).  False: only extend after the end.
+ALLOW_HEXT_BEFORE = True
+
+
+def _freq_str(seconds):
+    return ('%dmin' % (seconds // 60)) if seconds % 3600 else ('%dh' % (seconds // 3600))
+
+
+def _block_sizes(g, nsteps):
+    """block sizes (pandas frequency strings) holding at least 2 steps and at most about half of a window of nsteps steps"""
+    step = g['step_s']
+    out = []
+    for b in BLOCKS:
+        try:
+            sec = int(pd.Timedelta(b).total_seconds())
+        except Exception:
+            sec = int(pd.Timedelta(1, b).total_seconds())
+        if sec >= 2 * step and 2 * sec <= nsteps * step + step:
+            out.append(b)
+    return out
+
+
+def extended_grid(g, k, m):
+    """the grid of g extended by k steps before and m steps after (same zone, frequency and unit), or None if the extended
+    grid does not hold the points of g at positions k .. k+T (clock changes, dates that do not exist in the zone)"""
+    T = g['T_nominal']
+    s, e = gen.P(g, -k), gen.P(g, T + m)
+    if not (gen.ok_local(s, g) and gen.ok_local(e, g)):
+        return None
+    g2 = {k_: v for k_, v in g.items() if k_ != '_pts'}
+    g2['start'], g2['end'] = gen.iso(s), gen.iso(e)
+    try:
+        gen.fix_grid(g2)
+    except Exception:
+        return None
+    if g2['_pts'][k:k + T + 1] != g['_pts'] or len(g2['_pts']) != T + 1 + k + m:
+        return None
+    return g2
+
+
+def gen_hext_case(rnd, tmax=24, allow_mip=True):
+    g = gen.gen_grid(rnd, tmin=4, tmax=tmax, tz_prob=0.1)
+    T = g['T_nominal']
+    step = pd.Timedelta(seconds=g['step_s'])
+    prices = {}
+    ext = ['N1'] if rnd.random() < 0.5 else ['N1', 'N2']
+    assets = []
+
+    def win(a=None, b=None):
+        return {'start': gen.dtv(gen.P(g, 0 if a is None else a)), 'end': gen.dtv(gen.P(g, T if b is None else b))}
+
+    def local(a, b):
+        # (dates that exist exactly once in the grid's zone)
+        return gen.ok_local(gen.P(g, a), g) and gen.ok_local(gen.P(g, b), g)
+
+    def draw_window(min_len=2):
+        if rnd.random() < 0.25 or T <= min_len:
+            return 0, T
+        a = rnd.randint(0, T - min_len)
+        b = rnd.randint(a + min_len, T)
+        return (a, b) if local(a, b) else (0, T)
+    for k, n in enumerate(ext):
+        key = 'p%d' % len(prices)
+        prices[key] = [gen.q8(rnd, 2, 20) for _ in range(T)]
+        a = {'type': 'SimpleContract', 'name': 'mkt%d' % (k + 1), 'nodes': [n], 'args': {'min_cap': -40.0, 'max_cap': 40.0, 'price': key}}
+        if rnd.random() < 0.25:
+            a['args']['extra_costs'] = gen.q8(rnd, 0.125, 0.5)
+        a['args'].update(win(*((None, None) if rnd.random() < 0.8 else draw_window())))
+        assets.append(a)
+    kinds = [rnd.choice(HEXT_KINDS) for _ in range(rnd.randint(1, 3))]
+    info = []
+    for k, kind in enumerate(kinds):
+        n = rnd.choice(ext)
+        other = [x for x in ext if x != n]
+        nm = '%s%d' % (kind.split('_')[0][:3], k + 1)
+        if kind in ('ext_transport', 'transport', 'multi', 'chp') and not other:
+            kind = rnd.choice(['storage_block', 'contract', 'plant'])
+        if kind in ('plant', 'chp') and (not allow_mip or T > 14):
+            kind = 'storage_block'
+        a_, b_ = draw_window()
+        if kind == 'storage_block':
+            a = gen.gen_storage(rnd, g, prices, T, nm, [n], False, False)
+            bs = _block_sizes(g, b_ - a_)
+            if not bs:
+                a_, b_ = 0, T
+                bs = _block_sizes(g, T)
+            if bs:
+                a['args']['block_size'] = rnd.choice(bs)
+            if rnd.random() < 0.6:
+                a['args']['end_level'] = a['args']['start_level'] = a['args'].get('start_level', 0.0)
+        elif kind == 'storage':
+            a = gen.gen_storage(rnd, g, prices, T, nm, [n] if (not other or rnd.random() < 0.7) else [n, other[0]], allow_mip and T <= 14, False)
+        elif kind == 'plant':
+            a = gen.gen_plant(rnd, g, prices, T, nm, [n] if (not other or rnd.random() < 0.6) else [n, other[0]], chp=False, allow_mip=True)
+        elif kind == 'chp':
+            a = gen.gen_plant(rnd, g, prices, T, nm, [n, other[0]], chp=True, allow_mip=True)
+        elif kind == 'contract':
+            a = gen.gen_contract(rnd, g, prices, T, nm, n)
+        elif kind in ('transport', 'ext_transport'):
+            pair = [n, other[0]] if rnd.random() < 0.5 else [other[0], n]
+            a = gen.gen_transport(rnd, g, prices, T, nm, pair[0], pair[1], ext=(kind == 'ext_transport'))
+        elif kind == 'multi':
+            a = gen.gen_multi(rnd, g, prices, T, nm, [n, other[0]])
+        elif kind == 'simple':
+            a = gen.gen_simple_contract(rnd, g, prices, T, nm, n)
+        elif kind == 'coarse':
+            ck = rnd.choice(['simple', 'contract', 'storage'])
+            a = (gen.gen_simple_contract(rnd, g, prices, T, nm, n) if ck == 'simple' else gen.gen_contract(rnd, g, prices, T, nm, n) if ck == 'contract'
+                 else gen.gen_storage(rnd, g, prices, T, nm, [n], False, False))
+            mult = rnd.choice([2, 2, 3, 4])
+            if T >= mult:
+                a_ = rnd.randint(0, T - mult)
+                b_ = a_ + mult * rnd.randint(1, (T - a_) // mult)      # whole coarse steps, counted from the asset's own start
+                if local(a_, b_):
+                    a['args']['freq'] = _freq_str(int(step.total_seconds()) * mult)
+                else:
+                    a_, b_ = 0, T
+        elif kind == 'scaled':
+            base = gen.gen_storage(rnd, g, prices, T, nm + '_b', [n], False, False) if rnd.random() < 0.5 else gen.gen_simple_contract(rnd, g, prices, T, nm + '_b', n)
+            a = {'type': 'ScaledAsset', 'name': nm, 'base': base, 'nodes': [n],
+                 'args': {'min_scale': 0.0, 'max_scale': rnd.choice([1.0, 2.0]), 'norm_scale': 1.0, 'fix_costs': gen.q8(rnd, 0, 1)}}
+        else:
+            # all orders inside H (some between grid points)
+            oo = {'start': [], 'end': [], 'capa': [], 'price': []}
+            for _ in range(rnd.randint(1, 4)):
+                i = rnd.randint(0, T - 1)
+                j = rnd.randint(i + 1, T)
+                if not local(i, j):
+                    i, j = 0, T
+                s, e = gen.P(g, i), gen.P(g, j)
+                if rnd.random() < 0.15 and gen.ok_local(s + step / 2, g):
+                    s = s + step / 2
+                oo['start'].append(gen.dtv(s))
+                oo['end'].append(gen.dtv(e))
+                oo['capa'].append(rnd.choice([-1, 1]) * gen.q8(rnd, 0.25, 4))
+                oo['price'].append(gen.q8(rnd, 0, 22))
+            a = {'type': 'OrderBook', 'name': nm, 'nodes': [n], 'args': {'orders': oo}}
+        if a['type'] != 'OrderBook':
+            w = win(a_, b_)
+            if a['type'] == 'ScaledAsset':
+                # the window sits on the scaled asset itself (the period its fixed costs are charged for) and possibly on the base too
+                for tgt in rnd.choice([[a['args']], [a['base']['args'], a['args']]]):
+                    tgt.update(w)
+            else:
+                a['args'].update(w)
+        info.append('%s:%s' % (kind, a['args'].get('block_size') or a['args'].get('freq') or ''))
+        assets.insert(rnd.randint(0, len(assets)), a)
+    # ---- the extension
+    g2 = None
+    for _ in range(6):
+        k_b = rnd.choice([0, 1, 1, 2, 3, 4, 5]) if ALLOW_HEXT_BEFORE else 0
+        m_a = rnd.choice([0, 0, 1, 2, 3, 4])
+        if k_b == 0 and m_a == 0:
+            continue
+        g2 = extended_grid(g, k_b, m_a)
+        if g2 is not None:
+            break
+    if g2 is None:
+        k_b = m_a = 0
+        g2 = dict(g)
+    if k_b == 0 and rnd.random() < 0.3:
+        # discounting counts from the start of the horizon: only where that stays
+        for a in assets:
+            if a['type'] != 'OrderBook' and rnd.random() < 0.5:
+                a['args']['wacc'] = rnd.choice([0.05, 0.1, 0.5])
+                if a['type'] == 'ScaledAsset':
+                    a['base']['args']['wacc'] = a['args']['wacc']
+    prices2 = {}
+    for key, v in prices.items():
+        lo, hi = min(v), max(v)
+        prices2[key] = [gen.q8(rnd, lo, hi) for _ in range(k_b)] + list(v) + [gen.q8(rnd, lo, hi) for _ in range(m_a)]
+    return {'grid': g, 'nodes': ext, 'prices': prices, 'assets': assets,
+            'ext': {'before': k_b, 'after': m_a, 'grid': g2, 'prices': prices2, 'kinds': info}}
+
+
+def run_hext(scn, r, check_windows):
+    """fills the result record r of props/c08.run_case; check_windows = the window oracle (c) of props/c08.py"""
+    from .. import pf, impl
+    import numpy as np
+    feats = r['features']
+    e = scn['ext']
+    k_b, m_a = e['before'], e['after']
+    base = {k: v for k, v in scn.items() if k != 'ext'}
+    wide = dict(base, grid=e['grid'], prices=e['prices'])
+    types = sorted(set(a['type'] + ('/block' if 'block_size' in a.get('args', {}) else '') + ('/freq' if 'freq' in a.get('args', {}) else '') for a in base['assets']))
+    facts = {'stream': 'hext', 'before': k_b, 'after': m_a, 'asset_types': types, 'blocks': any('/block' in t for t in types)}
+    def short(a):
+        w = a['args'] if 'start' in a.get('args', {}) else a.get('base', {}).get('args', {})
+        opt = ', '.join('%s=%s' % (k_, a['args'][k_]) for k_ in ('block_size', 'freq', 'min_runtime', 'wacc') if k_ in a.get('args', {}))
+        return '%s %s%s' % (a['type'], ('(%s) ' % opt) if opt else '', ('%s .. %s' % (w['start']['$dt'][5:16], w['end']['$dt'][5:16])) if 'start' in w else 'orders inside')
+    how = 'the horizon %s .. %s (%s) extended by %d steps before and %d after (%s .. %s); every asset has its window inside the shorter one [%s]' % (
+        base['grid']['start'], base['grid']['end'], base['grid']['freq'], k_b, m_a, e['grid']['start'], e['grid']['end'], '; '.join(short(a) for a in base['assets']))
+
+    def viol(msg, **f):
+        r['violations'].append({'oracle': 'horizon_and_windows', 'detail': msg, 'facts': dict(facts, **f)})
+    feats += ['hext:before=%d' % min(k_b, 3), 'hext:after=%d' % min(m_a, 3)] + ['hext-kind:' + x.split(':')[0] for x in e['kinds']]
+    for x in e['kinds']:
+        if x.startswith('storage_block:') and x.split(':')[1]:
+            feats.append('hext-block:' + x.split(':')[1])
+    if k_b == 0 and m_a == 0:
+        feats.append('hext-none')
+        return
+
+    def run(s_):
+        try:
+            rec_ = pf.setup_mono(s_)
+            pf.solve_rec(rec_)
+            return rec_, None
+        except Exception as e_:
+            return None, e_
+    r0, e0 = run(base)
+    r1, e1 = run(wide)
+    r['evaluated'] += 1
+    if e0 is not None or e1 is not None:
+        if (e0 is None) != (e1 is None):
+            viol('%s: set-up / optimisation / read-out %s on the shorter horizon and %s on the longer one' % (
+                how, 'works' if e0 is None else 'raises %s (%s)' % (type(e0).__name__, str(e0)[:100]),
+                'works' if e1 is None else 'raises %s (%s)' % (type(e1).__name__, str(e1)[:100])), what='hext_raises')
+        else:
+            feats.append('setup-error:' + impl.err_class(e0))
+        return
+    a_, b_ = r0['res'], r1['res']
+    if isinstance(a_, str) or isinstance(b_, str):
+        if isinstance(a_, str) != isinstance(b_, str):
+            viol('%s: optimisation %s on the shorter horizon, %s on the longer one' % (how, a_ if isinstance(a_, str) else 'successful', b_ if isinstance(b_, str) else 'successful'),
+                 what='hext_status')
+        else:
+            feats.append('unsolved')
+        return
+    V0, V1 = float(a_.value), float(b_.value)
+    tol = 2e-6 * max(1.0, abs(V0))
+    r['observed'] = {'value': V0, 'value_extended': V1}
+    r['nontrivial'] = True
+    # nothing outside the windows (hence nothing outside the shorter horizon)
+    check_windows(wide, r1, viol, feats)
+    if abs(V0 - V1) > tol:
+        viol('%s: optimum %.9g on the shorter horizon, %.9g on the longer one' % (how, V0, V1), what='hext_value')
+        return
+    # the solutions carry over, asset by asset, in both directions
+    bl0, bl1 = pf.asset_blocks(r0), pf.asset_blocks(r1)
+    if any(bl0[a.name][0][1] - bl0[a.name][0][0] != bl1[a.name][0][1] - bl1[a.name][0][0] for a in r0['portf'].assets):
+        feats.append('hext-sizes-differ')       # (no statement of C08: the values were compared)
+        return
+    for src, dst, bs, bd, Vd, txt in ((r0, r1, bl0, bl1, V1, 'the solution on the shorter horizon is not an optimal solution on the longer one'),
+                                      (r1, r0, bl1, bl0, V0, 'the solution on the longer horizon is not an optimal solution on the shorter one')):
+        x = np.zeros(len(dst['op'].c))
+        for a in src['portf'].assets:
+            lo, hi = bs[a.name][0]
+            lo1, hi1 = bd[a.name][0]
+            x[lo1:hi1] = src['res'].x[lo:hi]
+        worst, wh = pf.feasibility_violation(dst['op'], x)
+        val = -float(np.dot(dst['op'].c, x))
+        if worst > 1e-5 or abs(val - Vd) > tol:
+            viol('%s: %s (violates %s by %.3g, value %.9g vs %.9g)' % (how, txt, wh, worst, val, Vd), what='hext_dispatch')
+            break
+
+
+# ====================================================================================== stream 'take': proration of take periods
+# "a take period partly outside the horizon is prorated by the covered duration": the bound that applies inside is
+# V * (covered duration) / (e - s), whatever the number of variables the asset uses per step.  Focus assets: Contract and
+# MultiCommodityContract with ONE variable per step and with TWO (extra costs - scalar, interval data or series - together with
+# capacities of both signs), ExtendedTransport, Plant and CHPAsset; own windows in all grid-aligned placements; one to three
+# max_take / min_take periods anywhere relative to horizon and window.
+# Oracles (`run_take`): (A) the right-hand sides of the take rows of the asset's own problem against date arithmetic (the
+# existing oracle `take_prorated` of comp/contract.py, which draws one-variable contracts only); (B) end to end: in the optimum
+# of the asset next to markets, what is taken inside the covered part of every period respects the prorated bound.
+TAKE_KINDS = ['contract', 'contract2', 'contract2', 'multi', 'multi2', 'ext_transport', 'plant', 'chp']
+TAKE_WINDOWS = ['none', 'none', 'inside', 'start_only', 'end_only', 'straddle_start', 'straddle_end', 'covering', 'equal']
+
+
+def _take_periods(rnd, g, n, lo, hi):
+    T = g['T_nominal']
+    ss, ee, vv = [], [], []
+    for _ in range(n):
+        how = rnd.choice(['inside', 'straddle_start', 'straddle_end', 'covering', 'any', 'any', 'outside'])
+        a = rnd.randint(0, max(0, T - 1))
+        b = rnd.randint(a + 1, T)
+        if how == 'inside':
+            i, j = a, b
+        elif how == 'straddle_start':
+            i, j = -rnd.randint(1, 5), b
+        elif how == 'straddle_end':
+            i, j = a, T + rnd.randint(1, 5)
+        elif how == 'covering':
+            i, j = -rnd.randint(0, 4), T + rnd.randint(0, 4)
+        elif how == 'outside':
+            i, j = (T + rnd.randint(0, 2), T + rnd.randint(3, 6)) if rnd.random() < 0.5 else (-rnd.randint(3, 6), -rnd.randint(0, 2))
+        else:
+            i = rnd.randint(-4, T)
+            j = rnd.randint(i + 1, T + 4)
+        s, e = gen.P(g, i), gen.P(g, j)
+        if not (gen.ok_local(s, g) and gen.ok_local(e, g)):
+            s, e = gen.P(g, 0), gen.P(g, T)
+        ss.append(gen.dtv(s))
+        ee.append(gen.dtv(e))
+        vv.append(gen.q8(rnd, lo, hi))
+    return {'start': ss, 'end': ee, 'values': vv}
+
+
+def gen_take_case(rnd, tmax=10):
+    g = gen.gen_grid(rnd, tmin=2, tmax=tmax, tz_prob=0.15)
+    T = g['T_nominal']
+    prices = {}
+    kind = rnd.choice(TAKE_KINDS)
+    nm = 'tk'
+    nodes = ['N1'] if kind in ('contract', 'contract2') or (kind == 'plant' and rnd.random() < 0.6) else ['N1', 'N2']
+    if kind in ('contract', 'contract2'):
+        a = gen.gen_contract(rnd, g, prices, T, nm, 'N1')
+    elif kind in ('multi', 'multi2'):
+        a = gen.gen_contract(rnd, g, prices, T, nm, 'N1')
+        a['type'] = 'MultiCommodityContract'
+        a['nodes'] = list(nodes)
+        a['args']['factors_commodities'] = [rnd.choice([1.0, 0.5, 2.0, 0.25]), rnd.choice([1.0, 0.5, -1.0, 2.0, -0.5])]
+    elif kind == 'ext_transport':
+        a = gen.gen_transport(rnd, g, prices, T, nm, 'N1', 'N2', ext=True)
+        a['args']['min_cap'], a['args']['max_cap'] = 0.0, gen.q8(rnd, 0.5, 6)
+    else:
+        a = gen.gen_plant(rnd, g, prices, T, nm, list(nodes), chp=(kind == 'chp'), allow_mip=rnd.random() < 0.5)
+        if a['type'] == 'CHPAsset_with_min_load_costs':
+            a['type'] = 'CHPAsset'
+            a['args'].pop('min_load_threshhold')
+            a['args'].pop('min_load_costs')
+    args = a['args']
+    if kind in ('contract2', 'multi2'):
+        # two variables per step: capacities of both signs (any form) and extra costs (any form)
+        if isinstance(args.get('min_cap'), float) and isinstance(args.get('max_cap'), float):
+            args['min_cap'], args['max_cap'] = -gen.q8(rnd, 0.5, 6), gen.q8(rnd, 0.5, 6)
+        if not args.get('extra_costs'):
+            args['extra_costs'] = gen.q8(rnd, 0.125, 2)
+    cap = args['max_cap'] if isinstance(args.get('max_cap'), float) and args['max_cap'] > 0 else 2.0
+    for k_ in ('start', 'end', 'min_take', 'max_take'):
+        args.pop(k_, None)
+    wk = gen.put_window(args, gen.window(rnd, g, kinds=TAKE_WINDOWS))
+    # values: about the size of what the capacity allows in a few steps, so that the bounds bind
+    big = cap * max(1, T) * (g['step_s'] / float(pd.Timedelta(1, g['unit']).total_seconds()))
+    r = rnd.random()
+    if r < 0.55:
+        args['max_take'] = _take_periods(rnd, g, rnd.randint(1, 3), 0.125, max(0.25, big))
+    elif r < 0.75:
+        lo_ok = kind in ('contract2', 'multi2') or (isinstance(args.get('min_cap'), float) and args['min_cap'] < 0)
+        args['min_take'] = _take_periods(rnd, g, rnd.randint(1, 2), -max(0.25, big / 2) if lo_ok else 0.0, max(0.25, big / 4) if kind != 'ext_transport' else 0.5)
+    else:
+        args['max_take'] = _take_periods(rnd, g, rnd.randint(1, 2), max(0.25, big / 2), max(0.5, 2 * big))
+        args['min_take'] = _take_periods(rnd, g, 1, -max(0.25, big / 2) if kind in ('contract2', 'multi2') else 0.0, max(0.25, big / 4) if kind != 'ext_transport' else 0.25)
+    # markets for the end-to-end part: with a premium over the contract's price (taking pays off), a discount (it does not), or any
+    assets = [a]
+    pk = args.get('price')
+    ref = prices.get(pk, [0.0] * T) if pk else [0.0] * T
+    mode = rnd.choice(['premium', 'premium', 'discount', 'any'])
+    for k, n in enumerate(nodes):
+        key = 'm%d' % k
+        if mode == 'premium':
+            prices[key] = [x + gen.q8(rnd, 2.5, 6) for x in ref]
+        elif mode == 'discount':
+            prices[key] = [x - gen.q8(rnd, 2.5, 6) for x in ref]
+        else:
+            prices[key] = [gen.q8(rnd, -2, 20) for _ in range(T)]
+        if kind == 'ext_transport':
+            # moving from N1 to N2 pays off (premium) or not
+            prices[key] = [10.0 + (k if mode != 'discount' else -k) * gen.q8(rnd, 2.5, 6) for _ in range(T)]
+        assets.append({'type': 'SimpleContract', 'name': 'mkt%d' % (k + 1), 'nodes': [n], 'args': {'min_cap': -60.0, 'max_cap': 60.0, 'price': key}})
+    return {'grid': g, 'nodes': nodes, 'prices': prices, 'assets': assets, 'take': {'asset': nm, 'kind': kind, 'window': wk, 'market': mode}}
+
+
+def expected_takes(spec, g):
+    """by date arithmetic: [(key, index, V, covered seconds, whole seconds, covered steps)] for every take period of the asset
+    specification; covered = the steps of the horizon that begin inside the asset's window and inside the period"""
+    tz = g.get('tz')
+    pts = list(pd.date_range(pd.Timestamp(g['start'], tz=tz), pd.Timestamp(g['end'], tz=tz), freq=g['freq']))      # (instants, as gen.fix_grid)
+    T = len(pts) - 1
+    args = spec['args']
+    ws = _inst(args['start'], tz) if 'start' in args else None
+    we = _inst(args['end'], tz) if 'end' in args else None
+    active = [t for t in range(T) if (ws is None or pts[t] >= ws) and (we is None or pts[t] < we)]
+    out = []
+    for key in ('max_take', 'min_take'):
+        tk = args.get(key)
+        if not tk:
+            continue
+        for i, (s, e, v) in enumerate(zip(tk['start'], tk['end'], tk['values'])):
+            s_, e_ = _inst(s, tz), _inst(e, tz)
+            steps = [t for t in active if s_ <= pts[t] < e_]
+            cov = sum((pts[t + 1] - pts[t]).total_seconds() for t in steps)
+            out.append((key, i, float(v), cov, (e_ - s_).total_seconds(), steps))
+    return out
+
+
+def run_take(scn, r):
+    """fills the result record r of props/c08.run_case"""
+    from .. import pf, impl, scen
+    import numpy as np
+    feats = r['features']
+    info = scn['take']
+    base = {k: v for k, v in scn.items() if k != 'take'}
+    spec = [a for a in base['assets'] if a['name'] == info['asset']][0]
+    g = base['grid']
+    facts = {'stream': 'take', 'asset_type': spec['type'], 'kind': info['kind'], 'window': info['window']}
+
+    def viol(msg, **f):
+        r['violations'].append({'oracle': 'take_prorated', 'detail': msg, 'facts': dict(facts, **f)})
+    feats += ['take-asset:' + info['kind'], 'take-window:' + str(info['window']), 'take-market:' + info['market']]
+    exp = expected_takes(spec, g)
+    what = '%s %r (window %s .. %s, extra costs %s, capacities %s .. %s) on the horizon %s .. %s' % (
+        spec['type'], spec['name'], spec['args'].get('start', {}).get('$dt'), spec['args'].get('end', {}).get('$dt'),
+        'yes' if spec['args'].get('extra_costs') else 'no', str(spec['args'].get('min_cap'))[:20], str(spec['args'].get('max_cap'))[:20], g['start'], g['end'])
+
+    def descr(key, i, v, cov, full):
+        tk = spec['args'][key]
+        return '%s %s .. %s of %g (%gs of %gs covered)' % (key, tk['start'][i]['$dt'], tk['end'][i]['$dt'], v, cov, full)
+    for key, i, v, cov, full, steps in exp:
+        feats.append('take-period:%s:%s' % (key, 'none' if cov == 0 else 'all' if cov == full else 'part'))
+    # ---- (A) the right-hand sides of the asset's own take rows
+    try:
+        tg = scen.make_grid(g)
+        asset = scen.build_asset(spec, scen.make_nodes(base['nodes']))
+        pr = {k: np.asarray(v, dtype=float) for k, v in base['prices'].items()}
+        with impl.Quiet():
+            op = asset.setup_optim_problem(pr, tg)
+    except Exception as e_:
+        feats.append('setup-error:' + impl.err_class(e_))
+        return
+    sign = -1.0 if spec['type'] == 'ExtendedTransport' else 1.0       # (the transport's rows are written for the flow out of its first node)
+    rows = [(key, i, v, cov, full) for key, i, v, cov, full, steps in exp if cov > 0]
+    nA = 0 if op.A is None else op.A.shape[0]
+    own_rows_only = spec['type'] in ('Contract', 'MultiCommodityContract', 'ExtendedTransport')
+    if len(op.c):
+        two = len(op.c) >= 2 * max(1, sum(1 for _ in set(op.mapping['time_step']))) and own_rows_only
+        feats.append('take-vars-per-step:%s' % ('2' if two else '1'))
+        facts['two_variables'] = bool(two)
+    if (own_rows_only and nA != len(rows)) or nA < len(rows):
+        viol('%s: %d take periods cover a step of the horizon inside the window, but the problem has %d take rows' % (what, len(rows), nA), what='take_rows')
+    else:
+        for k, (key, i, v, cov, full) in enumerate(rows):
+            want = sign * v * cov / full
+            got = float(op.b[k])
+            typ = {('max_take', 1.0): 'U', ('min_take', 1.0): 'L', ('max_take', -1.0): 'L', ('min_take', -1.0): 'U'}[(key, sign)]
+            if op.cType[k] != typ or abs(got - want) > 1e-9 * max(1.0, abs(want)):
+                viol('%s: %s: restriction %s %.10g, expected %s V*covered/(e-s) = %.10g' % (what, descr(key, i, v, cov, full), op.cType[k], got, typ, want), what='take_rhs')
+                break
+        if rows:
+            r['nontrivial'] = True
+            r['evaluated'] += 1
+    # ---- (B) end to end: what is taken in the covered part of every period respects the prorated bound
+    if spec['type'] not in ('Contract', 'MultiCommodityContract', 'ExtendedTransport'):
+        return       # (plants: the take counts power plus the power equivalent of heat; only (A))
+    try:
+        rec = pf.setup_mono(base)
+        pf.solve_rec(rec)
+    except Exception as e_:
+        feats.append('setup-error:' + impl.err_class(e_))
+        return
+    if isinstance(rec['res'], str):
+        feats.append('unsolved')
+        return
+    r['evaluated'] += 1
+    col = impl.disp_cols(rec['portf'])[(spec['name'], spec['nodes'][0])]
+    d = rec['out']['dispatch'][col].values.astype(float)
+    if spec['type'] == 'MultiCommodityContract':
+        d = d / spec['args']['factors_commodities'][0]
+    d = sign * d
+    scale = max(1.0, float(np.abs(d).max()))
+    for key, i, v, cov, full, steps in exp:
+        if cov == 0:
+            continue
+        bound = v * cov / full
+        tot = float(d[steps].sum())
+        binding = abs(tot - bound) <= 1e-6 * scale
+        feats.append('take-%s:%s' % (key, 'binding' if binding else 'slack'))
+        if (key == 'max_take' and tot > bound + 1e-6 * scale * len(steps)) or (key == 'min_take' and tot < bound - 1e-6 * scale * len(steps)):
+            viol('%s: %s: in the optimum %.9g is taken in the covered steps %s, the prorated bound is %.9g' % (what, descr(key, i, v, cov, full), tot, steps, bound), what='take_dispatch', key=key)
+            break
+    r['observed'] = {'value': float(rec['res'].value)}
